@@ -295,14 +295,20 @@ def json_unit(ctx, src, loops):
         header, _, _, _ = lex.find_block(pbody, intro, 'block ' + kind)
         if lit not in header:
             raise ExtractionBreak('%s: block %s is not introduced by %s' % (JS, kind, lit))
-    u = Unit(ctx, 'json')
-    u.raw('#define RDC(call) RD(call)\n#define RDG(call) RD(call)')
+    units = []
+
+    def new_unit(name, rdc='RD(call)', rdg='RD(call)'):
+        u = Unit(ctx, 'json_' + name)
+        u.raw('#define RDC(call) %s\n#define RDG(call) %s' % (rdc, rdg))
+        units.append(u)
+        return u
+    u = new_unit('hex')
     u.function(src, ST, r'uint8_t value_for_hex_char\(char x\)', ret_zero='0')
+    u = new_unit('skip')
     u.function(src, JS, SKIP_SIG, new_header='void skip_whitespace_and_comments(StringReader* r, bool disable_extensions)', ret_zero='',
                rules=[Rule(r'(\bwhile \(!r\.eof\(\)\) \{)', r'\1 C05_SKIP_STEP;', count=1, regex=True)] + COMMON_TAIL,
                nloops=1, loops={1: loops['skip']}, body_prefix=' C05_SKIP_ENTRY; ')
-    # forward declarations (mutual recursion)
-    u.raw('void JSON_parse(StringReader* r, bool disable_extensions, JVal* ret);')
+    u = new_unit('dict')
     CHILD = '(JSON_parse(r, disable_extensions, &%s), %s); if (verif_exc) return;'      # (call, ghost step) ; propagation
     # (a) dictionary
     key_check = '{ verif_exc = EXC_type_error; return; }'
@@ -330,6 +336,7 @@ def json_unit(ctx, src, loops):
     # as_string must be what the lowering says: type_error iff !is_string
     u.snippet(src, JS, r'string& JSON::as_string\(\) \{\s*if \(!this->is_string\(\)\) \{\s*throw type_error\([^;]*\);\s*\}\s*return ::get<string>\(this->value\);\s*\}')
     # (b) list
+    u = new_unit('list')
     u.block(src, JS, PARSE_SIG, BLOCKS['list'][0], ret_zero='',
             new_header='void JSON_parse_list(StringReader* r, bool disable_extensions, JVal* ret)',
             rules=[ENTRY('C05_LIST_ENTRY'), Rule('ret = JSON::list();', 'jv_set_list(ret);', count=1),
@@ -341,7 +348,7 @@ def json_unit(ctx, src, loops):
                    SKIP_RULE] + COMMON_TAIL,
             nloops=1, loops={1: loops['list']})
     # (c) number
-    u.raw('#undef RDC\n#undef RDG\n#define RDC(call) (C05_NUM_STEP, RD(call))\n#define RDG(call) (C05_NUM_GO_STEP, RD(call))')
+    u = new_unit('number', '(C05_NUM_STEP, RD(call))', '(C05_NUM_GO_STEP, RD(call))')
     u.block(src, JS, PARSE_SIG, BLOCKS['number'][0], ret_zero='',
             new_header='void JSON_parse_number(StringReader* r, bool disable_extensions, char root_type_ch, JVal* ret)',
             rules=[ENTRY('C05_NUM_ENTRY'), Rule(r'\bret = ([^;]*\bint_data\b[^;]*);', r'jv_set_int(ret, \1);', count=1, regex=True),
@@ -355,7 +362,7 @@ def json_unit(ctx, src, loops):
             [Fn(split_nested, 'nested may-throw calls')] + COMMON_TAIL,
             nloops=6, loops={k: loops['num%d' % k] for k in range(1, 7)})
     # (d) string
-    u.raw('#undef RDC\n#undef RDG\n#define RDC(call) (C05_STR_STEP, RD(call))\n#define RDG(call) RD(call)')
+    u = new_unit('string', '(C05_STR_STEP, RD(call))')
     u.block(src, JS, PARSE_SIG, BLOCKS['string'][0], ret_zero='',
             new_header='void JSON_parse_string(StringReader* r, JVal* ret)',
             rules=[ENTRY('C05_STR_ENTRY'), Rule(r'\bstring data;', 'vstr verif_data; vstr* data = &verif_data; vstr_local_init(data, C05_STR_CAP(r));', count=1, regex=True),
@@ -363,8 +370,8 @@ def json_unit(ctx, src, loops):
                    Rule(r'\bret = move\(data\);', 'C05_STR_EXIT; jv_set_string(ret, data);', count=1, regex=True),
                    Fn(split_nested, 'nested may-throw calls')] + COMMON_TAIL,
             nloops=1, loops={1: loops['string']})
-    u.raw('#undef RDC\n#undef RDG\n#define RDC(call) RD(call)\n#define RDG(call) RD(call)')
     # (e) dispatcher: the whole function, each of the four blocks replaced by a call of its function
+    u = new_unit('dispatch')
     u.function(src, JS, PARSE_SIG, ret_zero='', body_prefix=' C05_PARSE_ENTRY; ',
                new_header='void JSON_parse(StringReader* r, bool disable_extensions, JVal* ret)',
                rules=[replace_block('dict', 'JSON_parse_dict(r, disable_extensions, ret);'),
@@ -378,6 +385,7 @@ def json_unit(ctx, src, loops):
                       Rule(r'\breturn ret;', 'return;', count=1, regex=True),
                       SKIP_RULE] + CTYPE + COMMON_TAIL)
     # (h) string entry points
+    u = new_unit('entry')
     u.snippet(src, 'src/Strings.hh', r'\bStringReader\(const void\* data, size_t size, size_t offset = 0\);')
     u.snippet(src, 'src/Strings.hh', r'inline int8_t get_s8\(bool advance = true\)')
     u.function(src, JS, CSTR_SIG, ret_zero='',
@@ -391,17 +399,17 @@ def json_unit(ctx, src, loops):
                new_header='void JSON_parse_str(const vstr* s, bool disable_extensions, JVal* ret)',
                rules=[Rule(r'\breturn JSON::parse\(s\.data\(\), s\.size\(\), disable_extensions\);',
                            'JSON_parse_cstr(s->data, vstr_size(s), disable_extensions, ret); return;', count=1, regex=True)])
-    return u
+    return units
 
 
 RDG_ = 'g_len, g_off, g_mk'          # ghosts written by every reader call (macro RD)
 LOOPS = {
     'skip': """
-__CPROVER_assigns(verif_exc, r->offset, reading_comment, %s, g_cm, g_wk_ok, g_wsc)
-__CPROVER_loop_invariant(verif_exc == 0 && r->offset <= r->length && r->offset >= g_woff0)
-__CPROVER_loop_invariant((!reading_comment) == (!g_cm) && (disable_extensions ==> !g_cm))
-__CPROVER_loop_invariant((g_woff0 <= g_wk && g_wk < r->offset) ==> g_wk_ok)
-__CPROVER_loop_invariant((disable_extensions && g_woff0 <= g_wk && g_wk < r->offset) ==> C05_ISWS(r->data[g_wk]))
+__CPROVER_assigns(verif_exc, r->offset, reading_comment, %s, g_w.cm, g_w.k_ok, g_w.sc)
+__CPROVER_loop_invariant(verif_exc == 0 && r->offset <= r->length && r->offset >= g_w.off0)
+__CPROVER_loop_invariant((!reading_comment) == (!g_w.cm) && (disable_extensions ==> !g_w.cm))
+__CPROVER_loop_invariant((g_w.off0 <= g_wk && g_wk < r->offset) ==> g_w.k_ok)
+__CPROVER_loop_invariant((disable_extensions && g_w.off0 <= g_wk && g_wk < r->offset) ==> C05_ISWS(r->data[g_wk]))
 __CPROVER_decreases(r->length - r->offset)
 """ % RDG_,
     'list': "C05_CONTAINER_INV('[', ']', JV_LIST)",
@@ -411,7 +419,7 @@ __CPROVER_decreases(r->length - r->offset)
 
 READER_FNS = ['StringReader_get_s8', 'StringReader_pget_s8', 'StringReader_where', 'StringReader_size', 'StringReader_eof',
               'StringReader_go', 'StringReader_skip_if']
-H = 'harness/C05/parse.c'
+HD = 'harness/C05/%s.c'
 
 
 def plan(ctx):
@@ -420,31 +428,39 @@ def plan(ctx):
     core.write()
     rw_common.tmpl_units(ctx, src)
     rw_common.oneliners(ctx, src)
-    u = json_unit(ctx, src, LOOPS)
-    u.write()
-    ctx.functions_under_contract = list(u.functions)
+    units = json_unit(ctx, src, LOOPS)
+    ctx.functions_under_contract = []
+    for u in units:
+        u.write()
+        ctx.functions_under_contract += u.functions
     RP = lambda mode: Replay(driver='C05/json.cc', mode=mode, sources=ALL_LIB, small_define='VERIF_SMALL')
     groups = []
+    U = {u.name[5:]: u for u in units}
+    CALLEES = READER_FNS + ['value_for_hex_char', 'skip_whitespace_and_comments', 'JSON_parse_dict', 'JSON_parse_list', 'JSON_parse_number',
+                            'JSON_parse_string', 'JSON_parse_cstr', 'JSON_parse']
 
-    def G(name, entry, enforce, function, replace, **kw):
+    def G(name, unit, entry, enforce, function, **kw):
+        """every function the unit calls that has a contract of its own is replaced by that contract"""
         kw.setdefault('object_bits', 12)
         kw.setdefault('timeout', 300)
-        g = Group(name=name, harness=H, entry=entry, function=function, enforce=enforce, replace=replace, **kw)
+        text = lex.mask(U[unit].text()).replace('C05_SKIP(', 'skip_whitespace_and_comments(')
+        replace = [c for c in CALLEES if c != enforce and re.search(r'\b%s\s*\(' % c, text.replace('void %s(' % c, ''))]
+        if 'replace' in kw:
+            replace = kw.pop('replace')
+        g = Group(name=name, harness=HD % entry[2:], entry=entry, function=function, enforce=enforce, replace=replace, **kw)
         groups.append(g)
         return g
-    G('Strings.value_for_hex_char', 'h_hex', 'value_for_hex_char', 'value_for_hex_char', [], min_post=1)
-    G('JSON.skip_whitespace_and_comments', 'h_skip', 'skip_whitespace_and_comments', 'skip_whitespace_and_comments (JSON.cc)',
-      READER_FNS, loops=True, kind='loop-contract', fallback_unwind=10, replay=RP('text'))
-    BLK = ['JSON_parse_dict', 'JSON_parse_list', 'JSON_parse_number', 'JSON_parse_string']
-    G('JSON.parse.dispatch', 'h_parse', 'JSON_parse', 'JSON::parse(StringReader&, bool): dispatcher',
-      READER_FNS + BLK + ['skip_whitespace_and_comments'], kind='recursive', replay=RP('text'))
-    G('JSON.parse.list', 'h_list', 'JSON_parse_list', 'JSON::parse(StringReader&, bool): list branch',
-      READER_FNS + ['JSON_parse', 'skip_whitespace_and_comments'], loops=True, kind='recursive', replay=RP('list'))
-    G('JSON.parse.dict', 'h_dict', 'JSON_parse_dict', 'JSON::parse(StringReader&, bool): dictionary branch',
-      READER_FNS + ['JSON_parse', 'skip_whitespace_and_comments'], loops=True, kind='recursive', replay=RP('dict'))
-    G('JSON.parse_cstr', 'h_cstr', 'JSON_parse_cstr', 'JSON::parse(const char*, size_t, bool)',
-      READER_FNS + ['JSON_parse', 'skip_whitespace_and_comments'], replay=RP('text'))
-    G('JSON.parse_str', 'h_str', 'JSON_parse_str', 'JSON::parse(const std::string&, bool)', ['JSON_parse_cstr'], replay=RP('text'))
+    G('Strings.value_for_hex_char', 'hex', 'h_hex', 'value_for_hex_char', 'value_for_hex_char', min_post=1)
+    G('JSON.skip_whitespace_and_comments', 'skip', 'h_skip', 'skip_whitespace_and_comments', 'skip_whitespace_and_comments (JSON.cc)',
+      loops=True, kind='loop-contract', fallback_unwind=10, replay=RP('text'), first='cadical')
+    G('JSON.parse.dispatch', 'dispatch', 'h_parse', 'JSON_parse', 'JSON::parse(StringReader&, bool): dispatcher', kind='recursive', replay=RP('text'))
+    G('JSON.parse.list', 'list', 'h_list', 'JSON_parse_list', 'JSON::parse(StringReader&, bool): list branch',
+      loops=True, kind='recursive', replay=RP('list'), first='cadical')
+    G('JSON.parse.dict', 'dict', 'h_dict', 'JSON_parse_dict', 'JSON::parse(StringReader&, bool): dictionary branch',
+      loops=True, kind='recursive', replay=RP('dict'), first='cadical')
+    G('JSON.parse_cstr', 'entry', 'h_cstr', 'JSON_parse_cstr', 'JSON::parse(const char*, size_t, bool)', replay=RP('text'),
+      replace=['StringReader_eof', 'JSON_parse', 'skip_whitespace_and_comments'])
+    G('JSON.parse_str', 'entry', 'h_str', 'JSON_parse_str', 'JSON::parse(const std::string&, bool)', replace=['JSON_parse_cstr'], replay=RP('text'))
     return groups
 
 
